@@ -265,20 +265,26 @@ def numberVariants : Nat → List Rec → List Rec
 def variants (f : Fn) (c : Rec) : List Rec :=
   numberVariants 0 ((List.range f.ndefaults).map (variantClone f c) ++ [variantLast f c])
 
+/-- The instantiated clone `template_function2` makes of a member that uses the class template
+    parameter. -/
+def usesTClone (sc : Scope) (f : Fn) : Rec :=
+  { f.base sc with gen := .cxxTemplate, wrap := sc.w0, templated := false }
+
 /-- First loop of `define_function_suffix` for one declared function.  A function template
     with default arguments is instantiated first; the default-argument variants are made per
     instantiation. -/
 def stage1Fn (sc : Scope) (f : Fn) : List Rec :=
   if f.tinst.isEmpty then
     if f.usesT then
-      -- `template_function2`: the declared node is switched off, one clone is wrapped; its
-      -- default-argument variants are made from the instantiated clone
+      -- `template_function2`: the declared node is switched off (and stays out of the overload
+      -- numbering), one clone is wrapped; its default-argument variants are made from the
+      -- instantiated clone; clone and variants are numbered like any other overload set
       if f.ndefaults = 0 then
-        [{ f.base sc with wrap := ⟨false, false, false, false⟩ },
-         { f.base sc with gen := .cxxTemplate, wrap := sc.w0 }]
+        [{ f.base sc with wrap := ⟨false, false, false, false⟩ }, usesTClone sc f]
       else
         { f.base sc with wrap := ⟨false, false, false, false⟩ }
-          :: variants f { f.base sc with gen := .cxxTemplate, wrap := sc.w0 }
+          :: ((List.range f.ndefaults).map (variantClone f (usesTClone sc f))
+              ++ [variantLast f (usesTClone sc f)])
     else (List.range f.ndefaults).map (defaultClone sc f) ++ [original sc f]
   else if f.ndefaults = 0 then
     { f.base sc with overloaded := true, wrap := ⟨false, false, false, false⟩ }
